@@ -76,6 +76,7 @@ class Obl:
     object_bits: Optional[int] = None
     slice: bool = True
     unwinding_assertions: bool = True    # False: paths beyond the unwinding bound are cut (the obligation's assertions sit before the first loop)
+    witness_re: Optional[str] = None     # reachability witness other than VF_WITNESS: a property (regex on its key) that MUST fail
     backend: Optional[str] = None     # 'cvc5int': cbmc --cvc5 with cvc5 started as `cvc5 --solve-bv-as-int=sum` (mul/div by constants)
     ignore_props: List[str] = field(default_factory=list)  # regexes on 'file:function desc' that are not part of the claim
 
@@ -343,6 +344,9 @@ def run_obl(prop_id, o, workdir, extra_defs):
             funcs.add('%s:%s' % (os.path.basename(f), sl.get('function')))
         if 'VF_WITNESS' in p.get('description', ''):
             witness_failed = p['status'] == 'FAILURE'
+            continue
+        if o.witness_re and p['status'] == 'FAILURE' and re.search(o.witness_re, prop_key(p)):
+            witness_failed = True
             continue
         if p['status'] != 'SUCCESS':
             k = prop_key(p)
